@@ -1158,6 +1158,7 @@ class WriteTool(BaseTool):
         canonical_metrics: StructuralMetrics | None = None
         canonical_content = ""
         corrections: list[dict[str, Any]] = []
+        salvaged = False  # set when lenient parsing failed and the content was salvaged (I5: stays UNVALIDATED)
 
         # Determine mode
         normalize_mode = content is None and changes is None
@@ -1343,6 +1344,8 @@ class WriteTool(BaseTool):
                         # Issue #177: Use localized salvaging to preserve document structure
                         doc, salvage_corrections = self._localized_salvage(content, str(e), schema_name)
                         corrections.extend(salvage_corrections)
+                        # I5: the content did not parse; a salvaged carrier is never schema-validated
+                        salvaged = True
                     else:
                         return self._error_envelope(
                             target_path,
@@ -1525,7 +1528,7 @@ class WriteTool(BaseTool):
                         }
                 result["debug_info"] = debug_info
 
-            if has_schema:
+            if has_schema and not salvaged:
                 # I5: Schema-validated documents shall record schema name and version used
                 if schema_def is not None:
                     result["schema_name"] = schema_def.get("name", schema_name)
